@@ -148,11 +148,35 @@ def plain_run(algo, meta, rewards, np_seed, pcls=None, construct_only=False):
         return a, box
     pts = []
     for i, r in enumerate(rewards):
-        p = guarded(a.pull, meta["t0"] + i)
+        try:
+            p = guarded(a.pull, meta["t0"] + i)
+            pts.append(list(map(float, p)))
+            guarded(a.receive_reward, meta["t0"] + i, r)
+        except Exception as e:          # a crash is part of the (reproducible) behaviour, not a C14 matter
+            pts.append(["EXC", type(e).__name__]); break
+    try:
+        last = list(map(float, guarded(a.get_last_point)))
+    except Exception as e:
+        last = ["EXC", type(e).__name__]
+    return pts, last, box
+
+
+def step_instance(a, t, r, pts):
+    try:
+        p = guarded(a.pull, t)
         pts.append(list(map(float, p)))
-        guarded(a.receive_reward, meta["t0"] + i, r)
-    last = guarded(a.get_last_point)
-    return pts, list(map(float, last)), box
+        guarded(a.receive_reward, t, r)
+        return True
+    except Exception as e:
+        pts.append(["EXC", type(e).__name__])
+        return False
+
+
+def last_of(a):
+    try:
+        return list(map(float, guarded(a.get_last_point)))
+    except Exception as e:
+        return ["EXC", type(e).__name__]
 
 
 def c14_group(seed, idx, algo):
@@ -192,15 +216,16 @@ def c14_group(seed, idx, algo):
             B, boxB = plain_run(other, meta2, rew2, s + 1, construct_only=True)
             pa, pb, ia, ib = [], [], 0, 0
             n = len(rewards)
-            while ia < n or ib < n:
+            deadA = deadB = False
+            while (ia < n and not deadA) or (ib < n and not deadB):
                 burst = rnd.choice([1, 1, 1, 2, 5])
                 who = rnd.choice("AB")
                 for _ in range(burst):
-                    if who == "A" and ia < n:
-                        p = guarded(A.pull, meta["t0"] + ia); pa.append(list(map(float, p))); guarded(A.receive_reward, meta["t0"] + ia, rewards[ia]); ia += 1
-                    elif who == "B" and ib < n:
-                        p = guarded(B.pull, meta["t0"] + ib); pb.append(list(map(float, p))); guarded(B.receive_reward, meta["t0"] + ib, rew2[ib]); ib += 1
-            la, lb = list(map(float, guarded(A.get_last_point))), list(map(float, guarded(B.get_last_point)))
+                    if who == "A" and ia < n and not deadA:
+                        deadA = not step_instance(A, meta["t0"] + ia, rewards[ia], pa); ia += 1
+                    elif who == "B" and ib < n and not deadB:
+                        deadB = not step_instance(B, meta["t0"] + ib, rew2[ib], pb); ib += 1
+            la, lb = last_of(A), last_of(B)
             if pa != aloneA[0] or la != aloneA[1]:
                 base.fail("C14", "instances-interfere", f"{algo} interleaved with {other}: differs from running alone at round {first_diff_idx(pa, aloneA[0])}", algo=algo, other=other)
             if pb != aloneB[0] or lb != aloneB[1]:
